@@ -1068,6 +1068,19 @@ def _mark_check(R, rid, key, body, pids, input_tys, sp, via):
 
 
 # ------------------------------------------------------------------------------------ R13.3
+def _conforms(fname, names, types):
+    """the output field is built from the same-named input field, and from no other field that could be mistaken for it
+    (same type); `*` = the whole input value"""
+    if fname not in names:
+        return False
+    for g in names:
+        if g == fname:
+            continue
+        if g == "*" or g not in types or types.get(g) == types.get(fname):
+            return False
+    return True
+
+
 def r13_3(c, duke, R, spec):
     rid = "R13.3"
     R.rule(rid, "class_merger_merge(client, server): every field of the ClassFile literal is built from the same-named field of client "
@@ -1086,6 +1099,7 @@ def r13_3(c, duke, R, spec):
         return
     lit = lits[0]
     all_fields = [f["name"] for f in adt["variants"][0]["fields"]]
+    ftypes = {f["name"]: f["ty"] for f in adt["variants"][0]["fields"]}
 
     def sources(e, roots, scope, depth=0, seen=None):
         """{(root index, first field)} of every place rooted at one of `roots`, following local lets of `scope`."""
@@ -1127,7 +1141,9 @@ def r13_3(c, duke, R, spec):
             R.inst(rid, key, False, sp=e["sp"], expect="built from client.%s and/or server.%s" % (fname, fname), got=H.render(e)[:80],
                    detail="the field is a constant: the attribute of both inputs is dropped from the merged class")
             continue
-        R.inst(rid, key, names == [fname], sp=e["sp"], expect="only client.%s / server.%s" % (fname, fname),
+        R.inst(rid, key, _conforms(fname, names, ftypes), sp=e["sp"],
+               expect="client.%s / server.%s, and no other field of the same type (a field of a different type can only enter through a "
+                      "transformation, e.g. the interface lists feeding the EnvironmentInterfaces annotation)" % (fname, fname),
                got=sorted("%s.%s" % (("client", "server")[s], f) for s, f in src))
         if fname in spec["union_fields"]:
             R.inst(rid, "union:ClassFile.%s" % fname, sorted(s for s, f in src if f == fname) == [0, 1], sp=e["sp"],
@@ -1174,7 +1190,9 @@ def r13_3(c, duke, R, spec):
                     for f in ml["fields"]:
                         src = sources(f["e"], cps, innercl["body"])
                         names = sorted(set(x for _, x in src))
-                        R.inst(rid, "field:%s.%s" % (tname, f["name"]), names == [f["name"]], sp=f["e"]["sp"],
+                        mt = duke.adts.get(ml["adt"])
+                        mtypes = {x["name"]: x["ty"] for x in mt["variants"][0]["fields"]} if mt else {}
+                        R.inst(rid, "field:%s.%s" % (tname, f["name"]), _conforms(f["name"], names, mtypes), sp=f["e"]["sp"],
                                expect="client.%s / server.%s of the two members being merged" % (f["name"], f["name"]),
                                got=sorted("%s.%s" % (("client", "server")[s], x) for s, x in src))
                     b2 = ml.get("base") if isinstance(ml.get("base"), dict) else None
